@@ -41,6 +41,7 @@ type Stats struct {
 	MONonIdent  int64
 	Steps       int64
 	Samples     []Sample
+	SetsCapped  bool
 	known       map[string]bool
 	curNonTriv  bool
 	curHitKnown bool
@@ -73,8 +74,19 @@ func (s *Stats) Inc(name string) { s.Counters[name]++ }
 // Add adds n to a counter.
 func (s *Stats) Add(name string, n int64) { s.Counters[name] += n }
 
+// setCap bounds the hash sets a worker keeps (a thorough batch would otherwise
+// hold tens of millions of entries); beyond it the distinct counts are lower bounds.
+const setCap = 400000
+
 // State records a model-state fingerprint.
-func (s *Stats) State(h uint64) { s.States[h] = struct{}{} }
+func (s *Stats) State(h uint64) {
+	if len(s.States) >= setCap {
+		s.SetsCapped = true
+		return
+	}
+
+	s.States[h] = struct{}{}
+}
 
 // MarkNonTrivial marks the current run as non-trivial by the engine's rule.
 func (s *Stats) MarkNonTrivial() { s.curNonTriv = true }
@@ -111,7 +123,11 @@ func (s *Stats) endRun(t *Tape) {
 
 	if s.curNonTriv {
 		s.NonTrivial++
-		s.RunHashes[t.EventHash()] = struct{}{}
+		if len(s.RunHashes) < setCap {
+			s.RunHashes[t.EventHash()] = struct{}{}
+		} else {
+			s.SetsCapped = true
+		}
 	}
 
 	s.curNonTriv = false
@@ -125,6 +141,7 @@ func (s *Stats) Merge(o *Stats) {
 	s.MOApplied += o.MOApplied
 	s.MONonIdent += o.MONonIdent
 	s.Steps += o.Steps
+	s.SetsCapped = s.SetsCapped || o.SetsCapped
 
 	for k, v := range o.Counters {
 		s.Counters[k] += v
